@@ -15,4 +15,4 @@ mod c05_update;
 #[cfg(kani)]
 mod c05_index;
 #[cfg(kani)]
-mod c05_diag;
+mod c05_residency;
